@@ -164,6 +164,7 @@ def attach_loop_heads(r, heads):
         seen.add(key)
         verdict = _classify_head(h)
         ex = [why for (u, f, o), why in HEAD_EXEMPT.items() if u in r.id and f == h["function"] and o == h["ordinal"]]
+        ex += [why for (f, o), why in getattr(r, "head_exempt", {}).items() if f == h["function"] and o == h["ordinal"]]   # a unit may state a head itself and exempt it here
         name = "loop%d_of_%s.head_is_a_full_traversal" % (h["ordinal"], h["function"].split("::")[-1])
         if verdict == "full" or ex:
             r.add(name, DISCHARGED, "syntactic", 0.0, "for (%s %s; %s)%s" % (h["init"], h["cond"], h["inc"], " [exempt: %s]" % ex[0] if ex else ""), kind="establishment")
